@@ -63,13 +63,14 @@ ASSUMPTIONS = ['the oracle value is the property read on a second, never-indexed
                'their named results are covered as extra properties']
 
 INDEX_FORMS = ['int', 'negint', 'npint', 'slice', 'slice_step', 'slice_neg', 'list', 'list_dup', 'array', 'array_neg',
-               'boolarray', 'boollist', 'get_one', 'get_one_np', 'get_many', 'get_many_array', 'get_many_tuple']
+               'boolarray', 'boollist', 'get_one', 'get_one_np', 'get_many', 'get_many_array', 'get_many_tuple',
+               'get_many_desc', 'get_many_dup_narrow', 'array_narrow', 'list_desc']
 
 
 def plan(tier):
     if tier == 'thorough':
         return dict(shards=16, cases=4000, timeout=1500, budget_s=560)
-    return dict(shards=8, cases=220, timeout=400, budget_s=50)
+    return dict(shards=8, cases=220, timeout=400, budget_s=45)
 
 
 def selftest():
@@ -129,6 +130,22 @@ def make_index(rng, n, form, ids):
         return int(ids[int(rng.integers(0, n))]), 'get_one'
     if form == 'get_one_np':
         return np.int64(ids[int(rng.integers(0, n))]), 'get_one'
+    if form == 'get_many_desc':                       # descending order
+        k = int(rng.integers(1, n + 1))
+        return sorted((int(x) for x in rng.choice(ids, size=k, replace=False)), reverse=True), 'get_many'
+    if form == 'get_many_dup_narrow':                 # duplicates, narrow / unsigned integer dtype
+        k = int(rng.integers(2, n + 3))
+        v = rng.choice(ids, size=k, replace=True)
+        dts = [d for d in ('uint8', 'int16', 'uint16', 'uint32', 'uint64') if int(np.max(ids)) <= np.iinfo(d).max]
+        return np.asarray(v, dtype=dts[int(rng.integers(0, len(dts)))]), 'get_many'
+    if form == 'array_narrow':                        # positions as int8 / uint8 / int16 / uint64 arrays
+        k = int(rng.integers(1, n + 2))
+        dt = ['int8', 'uint8', 'int16', 'uint64'][int(rng.integers(0, 4))]
+        v = rng.integers(0 if dt.startswith('u') else -n, n, size=k)
+        return np.asarray(v, dtype=dt), 'getitem'
+    if form == 'list_desc':
+        k = int(rng.integers(1, n + 1))
+        return sorted((int(x) for x in rng.permutation(n)[:k]), reverse=True), 'getitem'
     if form == 'get_many_tuple':
         k = int(rng.integers(1, n + 1))
         return tuple(int(x) for x in rng.choice(ids, size=k, replace=False)), 'get_many'
@@ -261,6 +278,7 @@ def compare_tables(case, child, parent_b, pos, mech0, columns=None):
         for col in tc.colnames:
             ok, why = cmp.struct_same(_column_value(tc[col]), cmp.index_value(_column_value(tb[col]), p), 'table.' + col)
             if not ok:
+                mech = dict(mech, column=col)
                 break
     case.check(ok, 'child_table_equals_indexed_parent_table', mech, why=why)
     # 'date' is the construction time of each catalogue (A and B are built a moment apart)
@@ -431,6 +449,8 @@ def run_sc_commute(case):
         forms.append(form2)
 
     mech0 = {'cat': 'SourceCatalog', 'index': forms[-1], 'scalar': scalar, 'chain': chain, 'detcat': det_sc is not None}
+    if str(sc.layout.get('error', '')).startswith('dtype:float'):
+        mech0['error_dtype'] = sc.layout['error'][6:]      # structural fact for the mechanism key only
     case.params = dict(sc.describe(), sub=sub, index=[repr(idx)] + ([repr(idx2)] if chain == 2 else []), forms=forms,
                        n_pre_evaluated=len(E), extras=[k for _, k, _, _ in extras], detcat=det_sc is not None,
                        apermask=sc.apermask_method, kron_params=list(sc.kron_params))
@@ -469,15 +489,23 @@ def run_sc_commute(case):
             break
         extra_names += names
         case.note('extras_created_after_indexing', len(names))
-    for ax in sc.axes:
-        case.note('axis_' + ax)
-    if not sc.axes:
-        case.note('axis_plain_scene')
+    _note_axes(case, sc, det_sc)
     _count_fallback_rows(case, B)
     allnames = props + extra_names
     nfirst = compare_child(case, child, B, pos, allnames, mech0, cached, rng, 'sc')
     ncached = len([p for p in allnames if p in cached])
     compare_parent_after(case, A, B, pre_names, mech0, rng)
+    if (sc.wcs if det_sc is None else det_sc.wcs) is not None:
+        # sky / WCS outputs requested twice from the same objects (child and never-indexed parent)
+        for obj, whoc in ((child, 'child'), (B, 'parent')):
+            for nm in ('sky_centroid', 'sky_centroid_icrs', 'sky_bbox_ll', 'sky_bbox_ur', 'sky_centroid_win'):
+                ok1, v1 = read(case, obj, nm, whoc + '_property_raised', dict(mech0, prop=nm))
+                t = obj.to_table(columns=[nm])[nm] if ok1 else None
+                if ok1:
+                    exp = v1 if not obj.isscalar else (v1.reshape((1,)) if hasattr(v1, 'reshape') else [v1])
+                    ok, why = cmp.struct_same(_column_value(t), exp, nm)
+                    case.check(ok, 'second_request_equals_first', dict(mech0, prop=nm, on=whoc), why=why)
+        case.note('axis2_sky_outputs_requested_twice')
     if rng.random() < 0.35:
         cols = None if rng.random() < 0.5 else list(A.default_columns) + extra_names_scalar(B, extra_names)
         compare_tables(case, child, B, pos, mech0, columns=cols)
@@ -487,6 +515,15 @@ def run_sc_commute(case):
     case.note('sc_children_scalar' if scalar else 'sc_children_nonscalar')
     case.note('properties_compared_cached', ncached)
     case.note('properties_compared_first_evaluated_on_child', nfirst)
+
+
+def _note_axes(case, sc, det_sc=None):
+    for ax in sc.axes:
+        case.note('axis2_' + ax[2:] if ax.startswith('2_') else 'axis_' + ax)
+    if not sc.axes:
+        case.note('axis_plain_scene')
+    if det_sc is not None and det_sc.provenance.get('as_child'):
+        case.note('axis2_provenance_detection_cat_is_indexed_child')
 
 
 def _count_fallback_rows(case, cat):
@@ -579,7 +616,8 @@ def _family_recomputed(obj):
 
 
 def _cutouts(obj):
-    return obj.make_cutouts((5, 7), mode='partial', fill_value=np.nan)
+    # fill_value=0: NaN is documented to raise ValueError for integer images
+    return obj.make_cutouts((5, 7), mode='partial', fill_value=0)
 
 
 def _compare_family(case, obj, twin_snap, what, mech, rng, lazy_prob):
@@ -634,8 +672,7 @@ def run_sc_independence(case):
     def fresh():
         return gen.make_catalog(sc, gen.make_catalog(det_sc) if det_sc is not None else None)
     P = fresh()
-    for ax in sc.axes:
-        case.note('axis_' + ax)
+    _note_axes(case, sc, det_sc)
     props = list(P.properties)
     cheap = ['xcentroid', 'segment_flux', 'area', 'bbox_xmin', 'semimajor_sigma', 'min_value', 'label']
 
@@ -656,7 +693,7 @@ def run_sc_independence(case):
         mp.names.append(nm)
         mp.values[nm] = v
     for name in [p for p in props if rng.random() < 0.15]:
-        getattr(P, name)
+        read(case, P, name, 'parent_property_raised', {'cat': 'SourceCatalog', 'prop': name, 'phase': 'pre'})
     # in most histories the parent has its Kron quantities cached *before* it is indexed, so that the child
     # receives slices (views, for int / slice indices) of the parent's cached arrays
     pre_kron = rng.random() < 0.75
@@ -782,7 +819,7 @@ def run_sc_independence(case):
                 X.fluxfrac_radius(float(rng.choice([0.1, 0.35, 0.9, 1.0])))
             elif op == 'make_cutouts':
                 X.make_cutouts((int(rng.integers(1, 12)), int(rng.integers(1, 12))),
-                               mode=['partial', 'trim'][int(rng.integers(0, 2))])
+                               mode=['partial', 'trim'][int(rng.integers(0, 2))], fill_value=0)
         except ValueError as exc:
             loc = core.exc_location(exc)
             if loc is None:
@@ -897,6 +934,32 @@ def ap_scene(case):
             if rng.random() < 0.6:
                 layout[name] = ['F', 'strided', 'bigendian'][int(rng.integers(0, 2 if name == 'mask' else 3))]
                 axes.append('layout_' + layout[name])
+    # second list: dtype kind of the image / error, provenance of the aperture object
+    if rng.random() < 0.25:
+        if np.all(np.isfinite(data)) and rng.random() < 0.7:
+            name = ['uint8', 'uint16', 'int16', 'uint32', 'int64_beyond_2**31', 'uint64'][int(rng.integers(0, 6))]
+            data = c07mod._to_int_dtype(data, name)
+            layout.pop('data', None)
+            axes.append('2_dtype_data_' + name)
+        elif np.all(np.isfinite(data)):
+            with np.errstate(all='ignore'):
+                d32 = data.astype(np.float32)
+            if np.all(np.isfinite(d32)):
+                data = d32
+                axes.append('2_dtype_data_float32')
+        if error is not None and rng.random() < 0.5:
+            name = ['float32', 'uint16', 'uint8'][int(rng.integers(0, 3))]
+            with np.errstate(all='ignore'):
+                e2 = error.astype(np.float32) if name == 'float32' else c07mod._to_int_dtype(error, name, positive=True)
+            if np.all(np.isfinite(e2.astype(float))):
+                error = e2
+                axes.append('2_dtype_error_' + name)
+    aprov = None
+    if rng.random() < 0.3:
+        aprov = ['indexed_slice', 'indexed_list', 'roundtrip_sky'][int(rng.integers(0, 3))]
+        if aprov == 'roundtrip_sky' and wcs is None:
+            aprov = 'indexed_list'
+        axes.append('2_provenance_aperture_' + aprov)
     posform = int(rng.integers(0, 3))               # positions as ndarray / list of tuples / list of lists
     if rng.random() < 0.04:
         data = np.full((ny, nx), 2.5 * mag)          # degenerate: constant image
@@ -910,7 +973,17 @@ def ap_scene(case):
         return [q, q.to(u.arcmin), q.to(u.deg)][angform]
 
     def make_ap():
-        p = pos.copy()
+        ap = make_ap0(pos.copy() if aprov not in ('indexed_slice', 'indexed_list')
+                      else np.vstack([pos, pos[:2][::-1] + 3.25]))
+        if aprov == 'indexed_slice':                 # an aperture that is itself the result of indexing
+            ap = ap[:len(pos)]
+        elif aprov == 'indexed_list':
+            ap = ap[list(range(len(pos)))]
+        elif aprov == 'roundtrip_sky' and not sky:   # pixel -> sky -> pixel through the WCS
+            ap = ap.to_sky(wcs).to_pixel(wcs)
+        return ap
+
+    def make_ap0(p):
         if sky:
             sp = wcs.pixel_to_world(p[:, 0], p[:, 1])
             if shape % 2 == 0:
